@@ -99,6 +99,9 @@ pub struct DScn {
     pub seq_start: Option<VariableID>,
     /// allow one `Burst` per schedule
     pub bursts: bool,
+    /// if set, `cfg` is installed as the per-entity configuration of every peer and THIS is the
+    /// daemons' default configuration (which must then never be used for these transactions)
+    pub default_cfg: Option<Scenario>,
 }
 
 /// the explorer's alphabet
@@ -242,7 +245,11 @@ impl Exec {
             let mut map = HashMap::new();
             map.insert(peers, transport);
             let fs = Arc::new(NativeFileStore::new(camino::Utf8Path::new(root.to_str().unwrap())));
-            let mut daemon = Daemon::new(ent(i), scn.seq_start.unwrap_or(VariableID::from(SEQ)), map, fs, HashMap::new(), entity_config(&scn.cfg), prim_rx, ind_tx);
+            let (per_entity, default) = match &scn.default_cfg {
+                Some(dflt) => ((0..scn.daemons).filter(|j| *j != i).map(|j| (ent(j), entity_config(&scn.cfg))).collect::<HashMap<_, _>>(), entity_config(dflt)),
+                None => (HashMap::new(), entity_config(&scn.cfg)),
+            };
+            let mut daemon = Daemon::new(ent(i), scn.seq_start.unwrap_or(VariableID::from(SEQ)), map, fs, per_entity, default, prim_rx, ind_tx);
             let task = tokio::spawn(async move { daemon.manage_transactions().await.is_ok() });
             d.push(DaemonH { ent: ent(i), prim_tx, ind_rx, in_tx, take_tx, out_rx, task, root });
         }
